@@ -24,11 +24,15 @@ RULE = ('statements and programs mutated from the repository\'s own BASIC corpus
         'and PLAY strings from the GML/MML grammars with =/X pointer operands (all type bytes, real, offset and wild '
         'pointers), extreme numbers and dot counts; one file under several numbers with SHARED/LOCK modes and '
         'LOCK/UNLOCK/GET/PUT/CLOSE interleaved; the core of these spaces is swept systematically (kind matrix), the rest '
-        'sampled; a case is one Session.execute/evaluate call; distinct = distinct input text; observable: the type of any '
+        'sampled; kind variants: these families, the templates and short sound histories (looping / three-voice SOUND, '
+        'NOISE, SOUND ON/OFF, BEEP ON/OFF, one- and three-voice PLAY, SOUND f,0) under the non-default machine '
+        'configurations the command line produces (syntax tandy/pcjr, every video adapter with rgb/composite/mono '
+        'monitors, double, DBCS and other codepages, soft_linefeed, small max_memory, max_files, max_reclen, '
+        'reserved_memory, text_width 40, ...); a case is one Session.execute/evaluate call; distinct = distinct input text; observable: the type of any '
         'exception leaving the session API other than Exit')
 EXPLANATION = ('PARTIAL: the theorems (PcbV.Props.C01) cover the funnel decision logic and the enumerated host-call sites '
                '(TIME$/DATE$ -> datetime, ENVIRON -> os.environ, RENUM trap remap, PEEK preset table, Integer.from_int -> '
-               'struct.pack, exponent byte, VARPTR$ type byte, sprite unpack bounds, POINT pixel index) for every input; the global claim over all programs is NOT a theorem and is '
+               'struct.pack, exponent byte, VARPTR$ type byte, sprite unpack bounds, POINT pixel index, sound-queue expiry) for every input; the global claim over all programs is NOT a theorem and is '
                'covered only by this exploration (generators above), which is also the failing-input search.')
 TRUSTED_BASE = ['site models in PcbV.Model.Funnel/Clock/IntOps/Mbf are hand transcriptions; the list of sites is finite and hand-chosen']
 ASSUMPTIONS = ['host exceptions from call sites outside the modelled ones are only searched for, not excluded by proof']
@@ -649,12 +653,95 @@ def matrix_cells(rng, thorough):
     return groups
 
 
+# ---------------------------------------------------------------------------------------------------------------
+# non-default machine configurations (C01: "... as well as the command-line configuration"): the keyword sets the
+# command-line presets and options produce, recorded in a JSON-able form (codepage_name is expanded to the codepage
+# dict by session_kw) so that they travel in the replay
+VARIANT_MACHINES = [
+    {'syntax': 'tandy', 'video': 'tandy'}, {'syntax': 'tandy', 'video': 'tandy'},
+    {'syntax': 'tandy', 'video': 'tandy', 'video_memory': 16384, 'max_reclen': 255, 'reserved_memory': 3240},
+    {'syntax': 'pcjr', 'video': 'pcjr'}, {'syntax': 'pcjr', 'video': 'pcjr'},
+    {'syntax': 'pcjr', 'video': 'pcjr', 'text_width': 40, 'video_memory': 16384, 'reserved_memory': 4035},
+    {'video': 'cga', 'text_width': 40}, {'video': 'cga', 'monitor': 'composite'}, {'video': 'cga', 'monitor': 'mono'},
+    {'video': 'mda', 'monitor': 'mono'}, {'video': 'hercules', 'monitor': 'mono'}, {'video': 'ega', 'monitor': 'mono'},
+    {'video': 'ega_mono', 'monitor': 'mono'}, {'video': 'olivetti'}, {'video': 'vga', 'monitor': 'green'},
+    {'video': 'ega', 'video_memory': 65536}, {'video': 'ega_64k'}, {'syntax': 'advanced', 'video': 'vga'}, {}, {},
+]
+VARIANT_OPTIONS = [
+    (0.25, 'double', [True]), (0.25, 'codepage_name', ['932', '936', '949', '950', '850', '866', '874']),
+    (0.1, 'box_protect', [False]), (0.15, 'soft_linefeed', [True]), (0.2, 'max_memory', [8192, 16384, 32768]),
+    (0.15, 'max_files', [1, 8, 15]), (0.1, 'max_reclen', [32, 255, 32767]), (0.1, 'reserved_memory', [789, 4035]),
+    (0.1, 'textfile_encoding', ['utf-8', 'latin-1']), (0.05, 'hide_listing', [100]), (0.05, 'hide_protected', [True]),
+    (0.05, 'allow_code_poke', [True]), (0.05, 'check_keybuffer_full', [False]), (0.05, 'ctrl_c_is_break', [False]),
+    (0.05, 'serial_buffer_size', [1, 4096]), (0.1, 'text_width', [40]),
+]
+REPLAY_KEYWORDS = ('video', 'syntax', 'lpt_files', 'monitor', 'double', 'codepage_name', 'box_protect', 'soft_linefeed',
+                   'max_memory', 'max_files', 'max_reclen', 'reserved_memory', 'textfile_encoding', 'hide_listing',
+                   'hide_protected', 'allow_code_poke', 'check_keybuffer_full', 'ctrl_c_is_break', 'serial_buffer_size',
+                   'text_width', 'video_memory')
+
+
+def pick_variant(rng):
+    kw = dict(rng.choice(VARIANT_MACHINES))
+    for p, name, vals in VARIANT_OPTIONS:
+        if rng.random() < p and name not in kw:
+            kw[name] = rng.choice(vals)
+    return kw
+
+
+# sound on the single-voice and the multi-voice (Tandy / PCjr) machines: tones that loop (duration below 1/44 tick),
+# tones on the three voices, noise, the speaker switches, PLAY on one and on three voices, and the stop statement
+SOUND_FREQS = [b'37', b'100', b'440', b'880', b'32767', b'20000', b'110', b'109', b'0', b'36', b'-1']
+SOUND_DURS = [b'1E-39', b'.001', b'.01', b'.02', b'.0227', b'.022727', b'.0228', b'.03', b'.5', b'1', b'0', b'65535', b'-1', b'1E38']
+TUNE_TOKENS = [b'C', b'E', b'G', b'A#', b'B-', b'N20', b'N0', b'P64', b'O3', b'O6', b'>', b'<', b'MN', b'ML', b'MS', b'V15', b'V0', b'V16',
+               b'L32', b'C.', b'T200', b'D64']
+SOUND_STMTS = [
+    b'SOUND {f},{d}', b'SOUND {f},{d}', b'SOUND {f},{d}', b'SOUND {f},{d},{v}', b'SOUND {f},{d},{v},{c}', b'SOUND {f},{d},{v},{c}',
+    b'SOUND ON', b'SOUND OFF', b'BEEP ON', b'BEEP OFF', b'BEEP', b'NOISE {s},{v},{d}', b'NOISE {s},{v},{d}', b'SOUND {f},0',
+    b'PLAY "MB{t}"', b'PLAY "MB{t}"', b'PLAY "MB{t}"', b'PLAY "MB{t}","{t}","{t}"', b'PLAY "MB{t}","{t}","{t}"', b'PLAY "MF{t}"',
+    b'PLAY "{t}"', b'PLAY "MB{t}","",""', b'PLAY "","MB{t}"', b'PLAY "","","{t}"', b'PRINT PLAY(0);PLAY(1);PLAY(2)', b'PLAY ON',
+    b'PLAY OFF', b'ON PLAY(3) GOSUB 10', b'CLEAR', b'A$="{t}":PLAY "MBX"+VARPTR$(A$)', b'PLAY "MB{t}":PRINT PLAY(0)',
+]
+SOUND_SHAPES = [
+    [b'SOUND {f},{d}', b'PLAY "MB{t}"'], [b'SOUND {f},{d},{v},{c}', b'PLAY "MB{t}","{t}","{t}"'],
+    [b'SOUND ON', b'SOUND {f},{d},{v},{c}', b'PLAY "MB{t}"'], [b'SOUND OFF', b'SOUND {f},{d}', b'PLAY "MB{t}"', b'SOUND ON'],
+    [b'NOISE {s},{v},{d}', b'PLAY "MB{t}"'], [b'SOUND ON', b'NOISE {s},{v},{d}', b'SOUND {f},{d}', b'PLAY "{t}"'],
+    [b'PLAY "MB{t}","{t}"', b'SOUND {f},0', b'PLAY "MB{t}"'], [b'SOUND {f},{d}', b'SOUND {f},{d}', b'PRINT PLAY(0)', b'SOUND {f},0'],
+    [b'PLAY "MB{t}"', b'SOUND {f},{d}', b'PLAY "MB{t}"'], [b'BEEP OFF', b'SOUND {f},{d}', b'BEEP', b'PLAY "MB{t}"'],
+    [b'SOUND ON', b'SOUND {f},{d},{v},{c}', b'SOUND {f},{d},{v},{c}', b'PLAY "MB{t}","{t}","{t}"'],
+]
+
+
+def _tune(rng):
+    return b'T255L64' + b''.join(rng.choice(TUNE_TOKENS) for _ in range(rng.randrange(1, 5)))
+
+
+def sound_case(rng):
+    pools = {b'f': SOUND_FREQS, b'd': SOUND_DURS, b'v': [b'0', b'1', b'8', b'15', b'-1', b'16'], b'c': [b'0', b'1', b'2', b'3'],
+             b's': [b'0', b'3', b'4', b'7', b'8'], b't': _tune}
+    if rng.random() < 0.65:
+        stmts = rng.choice(SOUND_SHAPES)
+    else:
+        stmts = [rng.choice(SOUND_STMTS) for _ in range(rng.randrange(2, 5))]
+    return [('execute', _sub(rng, t, pools)) for t in stmts]
+
+
 FAMILY_KINDS = ('devices', 'ports', 'gfx', 'macro', 'locks')
 
 
+_CODEPAGES = {}
+
+
 def session_kw(kw, mount):
-    """expand the recorded pseudo-keyword lpt_files into device attachments below the scratch mount"""
+    """expand the recorded pseudo-keywords: lpt_files into device attachments below the scratch mount, codepage_name
+    into the codepage dictionary"""
     kw = dict(kw)
+    cpname = kw.pop('codepage_name', None)
+    if cpname:
+        if cpname not in _CODEPAGES:
+            from pcbasic.data import read_codepage
+            _CODEPAGES[cpname] = read_codepage(cpname)
+        kw['codepage'] = _CODEPAGES[cpname]
     lpt = kw.pop('lpt_files', None)
     if lpt:
         devices = dict(kw.get('devices') or {})
@@ -717,6 +804,11 @@ def worker(args):
         elif kind.startswith('matrix:'):
             kw.update(devices={'C': mount}, current_device='C')
             kw.update({k: v for k, v in fam.get('kw', {}).items() if v})
+        elif kind == 'variants':
+            kw.update(devices={'C': mount}, current_device='C')
+            kw.update(pick_variant(rng))
+            fam['modes'] = dict((v, m) for v, m in VIDEO_MODES).get(kw.get('video'), [0, 1, 2])
+            fam['multivoice'] = kw.get('syntax') in ('tandy', 'pcjr')
         elif kind in FAMILY_KINDS:
             kw.update(devices={'C': mount}, current_device='C')
             fam['modes'] = [0, 1, 2, 7, 8, 9]
@@ -744,7 +836,7 @@ def worker(args):
             if kw.get('syntax') == 'pcjr':
                 kw['video'] = 'pcjr'
         del hist[:]
-        kwlog[0] = {k: v for k, v in kw.items() if k in ('video', 'syntax', 'lpt_files')}
+        kwlog[0] = {k: v for k, v in kw.items() if k in REPLAY_KEYWORDS}
         s = Session(**session_kw(kw, mount))
         s.start()
         limit = [0]
@@ -817,7 +909,7 @@ def worker(args):
     try:
         i = 0
         while i < n:
-            if kind not in FAMILY_KINDS and (session[0] is None or rng.random() < 0.04):
+            if kind not in FAMILY_KINDS + ('variants',) and (session[0] is None or rng.random() < 0.04):
                 new_session()
             if kind in ('templates', 'default'):
                 text = fill(rng, rng.choice(TEMPLATES))
@@ -872,6 +964,41 @@ def worker(args):
                             samples.append([t.decode('latin-1') if isinstance(t, bytes) else t for _h, t in cell][:6])
                         i += 1
                 break
+            elif kind == 'variants':
+                # short histories of the statement families under a non-default machine configuration
+                if session[0] is None or len(hist) > 40 or rng.random() < 0.05:
+                    new_session()
+                    if rng.random() < 0.5:
+                        run_one(b'SCREEN %d' % rng.choice(fam['modes']))
+                    if rng.random() < 0.85:
+                        # music in the background: a foreground SOUND waits in real time for the tone before it
+                        run_one(b'PLAY "MB"')
+                    fam['setup'] = False
+                if session[0] is not None and len(hist) % 6 == 0:
+                    # keep the cursor off the bottom row: scrolling the text screen for every error message is what
+                    # most of the time would go to
+                    run_one(b'CLS')
+                r = rng.random()
+                if r < 0.45:
+                    ops = sound_case(rng)
+                elif r < 0.85:
+                    if not fam['setup'] and session[0] is not None:
+                        run_one(GFX_SETUP)
+                        run_one(MACRO_SETUP)
+                        fam['setup'] = True
+                    ops = family_case(rng, rng.choice(FAMILY_KINDS), fam)
+                else:
+                    ops = [('execute', fill(rng, rng.choice(TEMPLATES))) for _ in range(rng.randrange(1, 4))]
+                for how, text in ops:
+                    if session[0] is None:
+                        break
+                    if how == 'keys':
+                        run_one(text.encode('latin-1'), 'keys')
+                    elif not BANNED.search(text):
+                        run_one(text)
+                if i < 2:
+                    samples.append({'session': kwlog[0], 'case': [t.decode('latin-1') if isinstance(t, bytes) else t for _h, t in ops][:4]})
+                i += max(1, len([1 for h, _t in ops if h == 'execute']))
             elif kind in FAMILY_KINDS:
                 # the replayable history holds at most 60 entries: start over before it would be cut
                 if session[0] is None or len(hist) > 40 or rng.random() < 0.03:
@@ -1193,11 +1320,12 @@ def run(ctx):
         fixed_histories(ctx)
     if ctx.quick:
         plan = [('templates', 2100), ('corpus', 1700), ('files', 560), ('default', 420), ('renum', 280),
-                ('matrix', 'quick'), ('devices', 400), ('ports', 300), ('gfx', 1600), ('macro', 2000), ('locks', 1200)]
+                ('matrix', 'quick'), ('devices', 400), ('ports', 300), ('gfx', 1600), ('macro', 2000), ('locks', 1200),
+                ('variants', 2400)]
     else:
         plan = [('templates', 120000), ('corpus', 120000), ('files', 30000), ('default', 14000), ('renum', 14000),
                 ('matrix', 'thorough'), ('devices', 60000), ('ports', 20000), ('gfx', 60000), ('macro', 60000),
-                ('locks', 60000)]
+                ('locks', 60000), ('variants', 150000)]
     only = os.environ.get('C01_KINDS')
     if only:
         plan = [(k, n) for k, n in plan if k in only.split(',')]
